@@ -1,6 +1,8 @@
 use crate::util::Tier;
 
 pub mod c01;
+pub mod c05;
+pub mod c09;
 pub mod c11;
 pub mod selftest;
 
@@ -9,6 +11,8 @@ pub fn dispatch(id: &str, tier: Tier, seed: u64, rest: &[String]) -> i32 {
     match id {
         "selftest" => selftest::main(),
         "C01" => c01::main(tier, seed),
+        "C05" => c05::main(tier, seed),
+        "C09" => c09::main(tier, seed),
         "C11" => c11::main(tier, seed),
         _ => {
             eprintln!("unknown check {id}");
